@@ -755,3 +755,75 @@ func GlobalLiteralStrings(g *ssa.Global) (out []string, ok bool) {
 	}
 	return out, true
 }
+
+// GlobalInitCall: the package-level variable g is initialised once, by the package initialiser, with the result of a
+// call whose arguments are string constants (strings.NewReplacer("|", "\\|", "\n", " ")); nothing else assigns it.
+// It returns the callee's name and the constants in order.
+func GlobalInitCall(g *ssa.Global) (callee string, consts []string, ok bool) {
+	if g.Pkg == nil {
+		return "", nil, false
+	}
+	init := g.Pkg.Func("init")
+	if init == nil {
+		return "", nil, false
+	}
+	for fn := range ssautil.AllFunctions(g.Pkg.Prog) {
+		if fn.Pkg != g.Pkg || fn == init {
+			continue
+		}
+		written := false
+		Instrs(fn, false, func(in ssa.Instruction) {
+			if st, isSt := in.(*ssa.Store); isSt && st.Addr == ssa.Value(g) {
+				written = true
+			}
+		})
+		if written {
+			return "", nil, false
+		}
+	}
+	var call *ssa.Call
+	Instrs(init, false, func(in ssa.Instruction) {
+		if st, isSt := in.(*ssa.Store); isSt && st.Addr == ssa.Value(g) {
+			call, _ = st.Val.(*ssa.Call)
+		}
+	})
+	if call == nil {
+		return "", nil, false
+	}
+	callee = CalleeName(call)
+	for _, a := range call.Call.Args {
+		if s, isC := ConstString(a); isC {
+			consts = append(consts, s)
+			continue
+		}
+		// a variadic argument list: the elements stored into the backing array
+		if sl, isSl := a.(*ssa.Slice); isSl {
+			if al, isAl := sl.X.(*ssa.Alloc); isAl {
+				type el struct {
+					idx int64
+					s   string
+				}
+				var els []el
+				for _, r := range *al.Referrers() {
+					ia, isIA := r.(*ssa.IndexAddr)
+					if !isIA {
+						continue
+					}
+					k, _ := ConstInt(ia.Index)
+					for _, rr := range *ia.Referrers() {
+						if st, isSt := rr.(*ssa.Store); isSt {
+							if s, isC := ConstString(st.Val); isC {
+								els = append(els, el{k, s})
+							}
+						}
+					}
+				}
+				sort.Slice(els, func(i, j int) bool { return els[i].idx < els[j].idx })
+				for _, e := range els {
+					consts = append(consts, e.s)
+				}
+			}
+		}
+	}
+	return callee, consts, len(consts) > 0
+}
